@@ -233,7 +233,7 @@ pub struct StackCtx {
 
 pub const PROBE_WL_BASE: u16 = 9000;
 
-fn hash_bytes(b: &[u8]) -> u64 {
+pub fn hash_bytes(b: &[u8]) -> u64 {
     let mut h: u64 = 0xcbf2_9ce4_8422_2325;
     for x in b {
         h ^= *x as u64;
